@@ -343,9 +343,14 @@ func (rn *runner) oracle(cfg *Cfg, ep *epoch, lin lineage, rp Replay, bootEffect
 			// the specific known way: the node is the proposer of (h, r); its own value is not in the
 			// log; replay asked the application again and RE-PROPOSED A DIFFERENT VALUE for (h, r)
 			// (both proposals were observed at the broadcaster)
-			key := [2]int{w.h, w.r}
-			if cfg.proposerIdx(uint64(w.h), w.r) == cfg.Me && differs(lin.props[key], own[key]) {
-				sig += "-own-proposal-value-changed"
+			// ... in this round or an earlier round of the same height (the changed proposal changes
+			// what the node locks on, hence its votes in all later rounds of the height)
+			for r0 := 0; r0 <= w.r; r0++ {
+				key := [2]int{w.h, r0}
+				if cfg.proposerIdx(uint64(w.h), r0) == cfg.Me && differs(lin.props[key], own[key]) {
+					sig += "-own-proposal-value-changed"
+					break
+				}
 			}
 			violate(lib.Violation{Sig: sig, What: fmt.Sprintf("before the crash the node broadcast %s h=%d r=%d id=%s, after recovery it broadcast %s h=%d r=%d id=%s",
 				kind, v.h, v.r, v.id, kind, w.h, w.r, w.id), Replay: rp})
